@@ -30,7 +30,9 @@ M = [
     ("m14", "C02", P + "packets.py", "            read_buffer = read_buffer[current_pos:]\n            current_pos = 0", "            read_buffer = read_buffer[current_pos + 1:]\n            current_pos = 0"),
     ("m15", "C02", P + "packets.py", "        while len(read_buffer) - current_pos < n_bytes_packet:", "        while len(read_buffer) - current_pos < n_bytes_packet - 1:"),
     ("m16", "C10", P + "packets.py", "        if len(read_buffer) - current_pos < n_bytes_packet:\n            break", "        if len(read_buffer) - current_pos < n_bytes_packet - 1:\n            break"),
+    # (equivalent w.r.t. C10: a 5-byte remainder still declares >= 7 bytes and the second guard stops the loop)
     ("m17", "C10", P + "packets.py", "        if len(read_buffer) - current_pos < skip_header_bytes + RawPacketData.HEADER_LENGTH_BYTES:\n            break", "        if len(read_buffer) - current_pos < RawPacketData.HEADER_LENGTH_BYTES - 1:\n            break"),
+    ("m17b", "C10", P + "packets.py", "        if len(read_buffer) - current_pos < n_bytes_packet:\n            break", "        if len(read_buffer) - current_pos < RawPacketData.HEADER_LENGTH_BYTES:\n            break"),
     ("m18", "C12", P + "xtce/definitions.py", "if not all((sequence_counts[i + 1] - sequence_counts[i]) % 16384 == 1", "if not all((sequence_counts[i + 1] - sequence_counts[i]) == 1"),
     ("m19", "C12", P + "xtce/definitions.py", "raw_data += p[raw_packet_data.HEADER_LENGTH_BYTES + secondary_header_bytes:]", "raw_data += p[raw_packet_data.HEADER_LENGTH_BYTES:]"),
     ("m20", "C12", P + "xtce/definitions.py", "                _segmented_packets[raw_packet_data.apid] = [raw_packet_data]\n                continue", "                _segmented_packets.setdefault(raw_packet_data.apid, []).append(raw_packet_data)\n                continue"),
@@ -49,13 +51,16 @@ M = [
     ("m33", "C11", P + "xtce/definitions.py", "            except UnrecognizedPacketTypeError as e:\n                logger.debug", "            except UnrecognizedPacketTypeError as e:\n                self._last_error = e\n                logger.debug"),
     ("m34", "C09", P + "xtce/comparisons.py", "            useCalibratedValue=str(self.use_calibrated_value).lower(),\n            comparisonOperator=self.operator,", "            comparisonOperator=self.operator,"),
     ("m35", "C09", P + "xtce/calibrators.py", "            extrapolate=str(self.extrapolate).lower(),", "            extrapolate=\"false\","),
-    ("m36", "C09", P + "xtce/encodings.py", "                    intercept = self.linear_adjuster(0)\n                    slope = self.linear_adjuster(1) - intercept", "                    intercept = self.linear_adjuster(0)\n                    slope = self.linear_adjuster(1)"),
+    ("m36", "C09", P + "xtce/encodings.py", "                intercept = self.linear_adjuster(0)\n                slope = self.linear_adjuster(1) - intercept", "                intercept = self.linear_adjuster(0)\n                slope = self.linear_adjuster(1)"),
     ("m37", "C15", P + "xtce/definitions.py", "*(param.to_xml(elmaker=elmaker) for param in self.parameters.values()),", "*(param.to_xml(elmaker=elmaker) for param in set(self.parameters.values())),"),
     ("m38", "C16", P + "xtce/parameter_types.py", "for el in enumeration_list.iterfind('*')\n            }\n\n        if isinstance(encoding, encodings.FloatDataEncoding):", "for el in enumeration_list\n            }\n\n        if isinstance(encoding, encodings.FloatDataEncoding):"),
     ("m39", "C17", P + "xtce/definitions.py", "            if parameter_type_object.name in parameter_type_dict:", "            if parameter_type_object.name in parameter_type_dict and parameter_type_dict[parameter_type_object.name] != parameter_type_object:"),
     ("m40", "C18", P + "xarr.py", "        elif nbits <= 32:\n            datatype += \"32\"", "        elif nbits <= 33:\n            datatype += \"32\""),
     ("m41", "C18", P + "xarr.py", "            if variable_mapping[apid] != packet.keys():", "            if len(variable_mapping[apid]) != len(packet.keys()):"),
+    ("m41b", "C18", P + "xarr.py", "            if variable_mapping[apid] != packet.keys():", "            if not variable_mapping[apid] <= packet.keys():"),
+    # (equivalent: at exactly ten packets head + tail without an ellipsis row is still every packet once, in order)
     ("m42", "C19", P + "cli.py", "    if npackets > MAX_ROWS:\n        head_packets", "    if npackets >= MAX_ROWS:\n        head_packets"),
+    ("m42b", "C19", P + "cli.py", "        head_packets, tail_packets = packets[:HEAD_ROWS], packets[-HEAD_ROWS:]", "        head_packets, tail_packets = packets[:HEAD_ROWS], packets[-HEAD_ROWS + 1:]"),
     ("m43", "C20", P + "common.py", "obj.raw_value = raw_value if raw_value is not None else value", "obj.raw_value = raw_value or value"),
 ]
 
